@@ -140,6 +140,7 @@ struct Progress
     volatile long hist_index;
     volatile long step;
     volatile long h;
+    volatile long v;
     char opname[32];
 };
 
@@ -707,10 +708,12 @@ struct Driver
         {
             ++step;
             prog->step = step;
+            prog->v = op.v;
             std::strncpy(prog->opname, op.n.c_str(), sizeof(prog->opname) - 1);
             if (!run_op(op)) break;
         }
         prog->step = step + 1;
+        prog->v = 0;
         std::strncpy(prog->opname, "finish", sizeof(prog->opname) - 1);
         finish();
     }
@@ -903,7 +906,7 @@ int driver_main(int argc, char** argv)
             }
             ++crashes;
             out.line("{\"e\":\"crash\",\"h\":" + std::to_string(prog->h) + ",\"s\":" + std::to_string(prog->step) +
-                     ",\"n\":\"" + std::string(prog->opname) + "\"," + cls + "}");
+                     ",\"n\":\"" + std::string(prog->opname) + "\",\"v\":" + std::to_string(prog->v) + "," + cls + "}");
             next = static_cast<std::size_t>(prog->hist_index) + 1;
         }
     }
